@@ -198,7 +198,7 @@ fn main() {
         }
     } else {
         let mut rng = Rng::new(args.seed ^ 0xc05);
-        let cases = if args.tier == "thorough" { 40000 } else { 3000 };
+        let cases = if args.tier == "thorough" { 40000 } else { 12000 };
         for i in 0..cases {
             let n = [1usize, 2, 4][(i % 3) as usize];
             let data = rng.range(28, 72) as usize;
